@@ -153,6 +153,24 @@ def c17_runs(tier):
     return r
 
 
+def c20_runs(tier):
+    q = tier == 'quick'
+    cv = ['inotify.delivered', 'inotify.dropped-before-handler', 'inotify.record-with-name',
+          'inotify.unregister-self-in-handler', 'inotify.unregister-other-in-handler',
+          'inotify.unregister-instance-in-handler', 'inotify.complete-run']
+    src = ['harness/inotify.c'] + ENVSRC
+
+    def run(name, covers, **params):
+        return {'name': name, 'sources': src, 'params': params, 'covers': covers,
+                'bounds': ' '.join('%s=%s' % kv for kv in sorted(params.items()))}
+    r = [run('never-used', ['inotify.unregister-without-events'], scenario=0),
+         run('buffer.epoll', cv, scenario=1, W=2 if q else 3, M=2 if q else 3, poll=0),
+         run('buffer.poll', cv, scenario=1, W=2, M=2 if q else 3, poll=1)]
+    if q:
+        r.append(run('buffer.W3M3.noinst', cv[:5], scenario=1, W=3, M=3, acts=1))
+    return r
+
+
 LOOP_OUTSIDE = ('more descriptors/timers/tasks, more operations per callback and more loop iterations than stated; '
                 'the real kernel (the model is the trusted base); kqueue/dev-poll/port back ends (not built on Linux)')
 
@@ -226,6 +244,17 @@ CHECKS = {
                        'the FIONREAD probe (the pump then assumes the pipe is full until output progresses); '
                        'pipes vs stream sockets differ only through the modelled return values',
             'assumptions': ENV_ASSUMPTIONS},
+    'C20': {'runs': c20_runs,
+            'explanation': 'C20: one read returns m records whose watch descriptor and IN_IGNORED bit are solver '
+                           'unknowns and whose name length is forked; handlers unregister+free themselves, another '
+                           'watch or the whole instance; oracles: routed by descriptor (solver), in order, skipped '
+                           'records match no live watch (solver), dropped before handler, nothing after unregister, '
+                           'memory monitor on freed watches/instance.',
+            'bounds': {'quick': 'W<=3 watches (one IN_ONESHOT), m<=3 records per read, one read',
+                       'thorough': 'W=3, m=3 with instance unregistration, both epoll and poll'},
+            'outside': 'several reads per run; the real inotify queue (records are produced by the harness)',
+            'assumptions': ENV_ASSUMPTIONS + ['a watch dropped by the library (IN_IGNORED / IN_ONESHOT) is not '
+                                              'unregistered again by the application']},
     'C16': {
         'runs': avl_runs,
         'explanation': 'C16: pre-state = any balanced shape (enumerated by forking) with solver-unknown strictly '
